@@ -137,6 +137,35 @@ func refCode(key []byte, counter uint64, digits, algo int) string {
 
 func genOps(r *rng, n int) []op {
 	var ops []op
+	// the clipped / wrapped part of the window, systematically: small counters and instants, every skew class, every
+	// distance from below the window to twice the skew above it (a sample of the grid in proportion to n)
+	{
+		key := []byte("12345678901234567890")
+		type cell struct{ c, s, dist int64 }
+		var grid []cell
+		for _, c := range []int64{0, 1, 2, 3, 9, 10, 11} {
+			for _, s := range []int64{0, 1, 2, 3, 10} {
+				for dist := -(s + 2); dist <= 2*s+2; dist++ {
+					grid = append(grid, cell{c, s, dist})
+				}
+			}
+		}
+		take := n / 4
+		if take > len(grid) {
+			take = len(grid)
+		}
+		for k := 0; k < take; k++ {
+			g := grid[(k*len(grid)/take+int(r.intn(3)))%len(grid)]
+			tgt := pick(r, []string{"global", "export"})
+			ds, as := pick(r, []string{"6", "8", "10"}), pick(r, []string{"SHA1", "SHA256", "SHA512"})
+			d := map[string]int{"6": 6, "8": 8, "10": 10}[ds]
+			a := map[string]int{"SHA1": 0, "SHA256": 1, "SHA512": 2}[as]
+			code := refCode(key, uint64(g.c+g.dist), d, a)
+			ops = append(ops, op{Target: tgt, Fn: "validateHOTP", Args: []jsArg{jstr(rfcKeyB32), jstr(code), jint(g.c), jstr(ds), jstr(as), jint(g.s)}})
+			per := int64(pick(r, []int{1, 30, 60}))
+			ops = append(ops, op{Target: tgt, Fn: "validateTOTP", Args: []jsArg{jstr(rfcKeyB32), jstr(code), jint(g.c*per + int64(r.intn(int(per)))), jstr(ds), jstr(as), jint(g.s), jint(per)}})
+		}
+	}
 	// boundary codes (maximal zero padding) through both tables of names
 	for _, rc := range rareCodes {
 		as := []string{"SHA1", "SHA256", "SHA512"}[rc[0]]
